@@ -19,8 +19,18 @@ pub struct Case {
 
 fn strategy() -> impl Strategy<Value = Case> {
 	let cfg = GenCfg { ns_min: 2, ns_max: 3, p_missing: 15, style: TargetStyle::Arbitrary, max_classes: 6, backslash_docs: true, lone_surrogates: true, ..GenCfg::default() };
-	(mapset(cfg), any::<u8>(), order_seed()).prop_map(|(m, ns, order)| {
+	(mapset(cfg), any::<u8>(), order_seed()).prop_map(|(mut m, ns, order)| {
 		let ns = (ns as usize) % m.ns.len();
+		// one case in five: a childless, comment-less class whose name only *contains* the placeholder package path - the path
+		// twice in front of `C_`, or in front of another package - and one that really is a placeholder, for comparison
+		if order % 5 == 0 {
+			for (i, name) in ["net/minecraft/unmapped/net/minecraft/unmapped/C_5", "net/minecraft/unmapped/x/C_6", "x/net/minecraft/unmapped/C_7", "net/minecraft/unmapped/C_8"].iter().enumerate() {
+				let mut names: crate::mapmodel::Names = vec![None; m.ns.len()];
+				names[0] = Some(format!("rep/K{i}"));
+				names[ns] = Some(name.to_string());
+				m.classes.entry(names[0].clone().unwrap()).or_insert(crate::mapmodel::MClass { names, ..Default::default() });
+			}
+		}
 		Case { m, ns, order }
 	})
 }
@@ -111,6 +121,27 @@ fn diff_strategy() -> impl Strategy<Value = DiffCase> {
 		let mut full_b = b.clone();
 		fill_names(&mut full_a);
 		fill_names(&mut full_b);
+		// one case in six: the diff also adds a class with 40 fields, 40 methods (each with two parameters) - far more
+		// additions than any per-run budget of a few dozen
+		if order % 48 == 0 {
+			let mut c = crate::mapmodel::MClass { names: vec![Some("bulk/Added".into()), Some("bulk/AddedNamed".into())], ..Default::default() };
+			for k in 0..40usize {
+				c.fields.insert(crate::mapmodel::MemberKey::new(&format!("bf{k}"), "I"), crate::mapmodel::MField { names: vec![Some(format!("bf{k}")), Some(format!("f_{k}"))], doc: None });
+				let mut me = crate::mapmodel::MMethod { names: vec![Some(format!("bm{k}")), Some(if k % 2 == 0 { format!("m_{k}") } else { format!("named{k}") })], doc: None, params: Default::default() };
+				for i in 0..2usize {
+					me.params.insert(i, crate::mapmodel::MParam { names: vec![None, Some(format!("p_{i}"))], doc: None });
+				}
+				c.methods.insert(crate::mapmodel::MemberKey::new(&format!("bm{k}"), "(II)V"), me);
+			}
+			full_b.classes.insert("bulk/Added".into(), c.clone());
+			// and 40 fields added to a class both sides have
+			if let Some(shared) = full_b.classes.keys().find(|k| full_a.classes.contains_key(*k)).cloned() {
+				let tc = full_b.classes.get_mut(&shared).unwrap();
+				for k in 0..40usize {
+					tc.fields.entry(crate::mapmodel::MemberKey::new(&format!("extra{k}"), "J")).or_insert(crate::mapmodel::MField { names: vec![Some(format!("extra{k}")), Some(format!("extraNamed{k}"))], doc: None });
+				}
+			}
+		}
 		let mut d = refops::diff(&full_a, &full_b).unwrap_or_default();
 		let mut dr = crate::mapmodel::gen::Draws::new(&s3);
 		for c in d.classes.values_mut() {
